@@ -3,4 +3,4 @@ From OV Require Import Common.Base C15.Model.
 Extraction Language OCaml.
 Extraction "C15_model.ml" repaired defective effective configure step cstep comp_init stats
   mon_disjoint mon_range mon_limit mon_paired mon_trace rev_lookup all_blocks blocks_of
-  mconfigure configure_all mstep mon_xdisjoint pool_ok setup pools_valid dispatch estep ecomp_init.
+  mconfigure configure_all mstep mon_xdisjoint pool_ok setup pools_valid dispatch estep ecomp_init db_step pstep.
